@@ -16,7 +16,11 @@ RULE = ("programs of nested 如果/再如/否则, 每当 (counter incremented fi
         "second loop over the same collection, inside an enclosing 遍历/每当 whose own variables are changed too, in a method called two "
         "or three times with collections of different sizes) — positions are 1, 2, 3 … every time; one program in fifty walks a list of "
         "130–520 items twice. Non-trivial = the program contains a loop and a "
-        "control transfer (输出/结束循环/继续循环) and displays at least one marker.")
+        "control transfer (输出/结束循环/继续循环) and displays at least one marker. Streams `semicolon` / `semicolon-flow` (props/edges.py): `；` statements "
+        "in every kind of block (program, 如果 / 再如 / 否则, 每当, 遍历 over list and dictionary, method with and without 输出, constructor, object method, "
+        "handler of a method and of the program, 令： block) at every place (alone first / between / last, before and after a statement on its "
+        "line, doubled, the only statement, after the statement whose value is the body's); bodies that consist of definitions only; 80 flow "
+        "programs with `；` sprinkled over every statement list.")
 ASSUMPTIONS = ["non-terminating programs are outside the quantifier (all generated loops are bounded by construction)"]
 PARTIAL = "object methods and handlers are C08/C09's"
 
@@ -32,3 +36,9 @@ def run(ctx):
                      any(k in src for k in ('输出', '结束循环', '继续循环')) and not go.endswith('| -'))
     for k, v in sorted(g.stats.items()):
         ctx.count('flow:gen:' + k, v)
+    # `；` statements: every kind of block × every place (113 programs), then flow programs with `；` sprinkled over every statement
+    # list; bodies made of definitions only — props/edges.py
+    from props import edges
+    progs.run_stream(ctx, 'semicolon', edges.semicolon_programs(ctx.rng), nontrivial=lambda src, go: True)
+    sp = edges.sprinkled_flow_programs(g, ctx.rng, ctx.n(80, 4000))
+    progs.run_stream(ctx, 'semicolon-flow', sp, nontrivial=lambda src, go: ('每当' in src or '遍历' in src) and not go.endswith('| -'))
